@@ -15,15 +15,17 @@ def run(case):
     from BPTK_Py.externalstateadapter import FileAdapter
     tmpd = tempfile.mkdtemp(prefix="c18_")
     try:
-        return _run(case, make_app(adapter=FileAdapter(False, tmpd)))
+        FakeClock.now_value = _real_datetime.datetime(2030, 1, 1, 0, 0, 0)
+        return _run(case, make_app(fake_clock=True, adapter=FileAdapter(False, tmpd)))
     finally:
         shutil.rmtree(tmpd, ignore_errors=True)
 
 def _run(case, app):
     client = app.test_client()
-    u = start(client); begin(client, u)
+    u = start(client, timeout={"seconds": 30}); begin(client, u)
     inst = app._instance_manager._instances[u]["instance"]
     open_stream = None
+    stream_live = False      # the harness' own view: a stream was opened, not read to its end and not closed
     times = []         # all simulation times returned by successful responses, in order of production
     def clock():
         return inst.session_state["step"]
@@ -43,8 +45,15 @@ def _run(case, app):
                             out.extend(float(t) for t in series.keys())
         return out
     for n, op in enumerate(case):
-        locked_before = inst.is_locked()
+        locked_before = inst.is_locked() or stream_live
         c0 = clock()
+        if op[0] == "wait":
+            # time passes (more than a third of the instance timeout) while the client keeps the instance alive
+            FakeClock.advance(11)
+            r = client.post("/%s/keep-alive" % u)
+            if r.status_code != 200:
+                return "op %d %r: keep-alive answered %d" % (n, op, r.status_code)
+            continue
         if op[0] == "steps":
             r = client.post("/%s/run-steps" % u, json=dict(SET, numberSteps=op[1]))
             if locked_before:
@@ -130,11 +139,12 @@ def _run(case, app):
             r = client.post("/%s/stream-steps" % u, json=SET, buffered=False)
             it = iter(r.response)
             chunks = []
+            stream_live = True
             try:
                 for _ in range(op[1]):
                     chunks.append(next(it))
             except StopIteration:
-                pass
+                stream_live = False
             open_stream = (r, it, chunks)
             if not inst.is_locked() and len(chunks) == op[1] and op[1] > 0:
                 return "op %d %r: stream in progress but the instance is not locked" % (n, op)
@@ -142,6 +152,7 @@ def _run(case, app):
             r, it, chunks = open_stream
             r.close()
             open_stream = None
+            stream_live = False
             if inst.is_locked():
                 return "op %d %r: lock not released after the client went away" % (n, op)
         elif op[0] == "stream_finish" and open_stream is not None:
@@ -150,6 +161,7 @@ def _run(case, app):
                 chunks.append(ch)
             r.close()
             open_stream = None
+            stream_live = False
             text = "".join(c.decode() if isinstance(c, bytes) else c for c in chunks)
             try:
                 got = parse_steps(json.loads(text))
@@ -173,7 +185,7 @@ def gen(rnd):
     ops = []
     for _ in range(rnd.randint(1, 6)):
         ops.append(rnd.choice([('steps', 1), ('steps', 2), ('step',), ('stream_open', 1), ('stream_open', 3), ('stream_close',),
-                               ('stream_finish',), ('bad_steps',), ('stream_all',), ('steps', 3), ('step',), ('save',), ('bad_step',), ('bad_steps2',)]))
+                               ('stream_finish',), ('bad_steps',), ('stream_all',), ('steps', 3), ('step',), ('save',), ('bad_step',), ('bad_steps2',), ('wait',), ('wait',)]))
     return ops
 
 
@@ -185,7 +197,9 @@ def main():
     failures = []
     fixed = [[('stream_open', 3), ('stream_close',), ('steps', 2)], [('stream_open', 2), ('steps', 1), ('step',), ('steps', 2), ('stream_finish',)],
              [('stream_all',), ('step',)], [('bad_steps',), ('steps', 1)], [('stream_open', 2), ('save',), ('step',), ('stream_finish',)],
-             [('step',), ('bad_step',), ('step',), ('bad_steps2',), ('steps', 2)]]
+             [('step',), ('bad_step',), ('step',), ('bad_steps2',), ('steps', 2)],
+             [('stream_open', 2), ('wait',), ('step',), ('wait',), ('wait',), ('steps', 1), ('wait',), ('step',), ('steps', 2), ('stream_finish',)],
+             [('stream_open', 1), ('step',), ('steps', 2), ('stream_all',), ('stream_finish',), ('step',)]]
     while time.time() < t_end:
         case = fixed[n] if n < len(fixed) else gen(rnd)
         n += 1
